@@ -20,6 +20,8 @@ def c20():
     for n in range(0, 9):
         qs.append(Q(f"str_to_tag_len{n}", "C20_tags.cpp", "vh_str_to_tag", {"LEN": n}, unwind=12, tiers=("quick", "thorough") if n <= 6 else ("thorough",)))
     qs.append(Q("tag_to_str", "C20_tags.cpp", "vh_tag_to_str", unwind=6))
+    qs.append(Q("tag_select", "C20_tags.cpp", "vh_tag_select", {"VH_TAGSEL": None}, unwind=8, unwindset={"findFeatureRef": 3, "cloneFeatures": 3, "insert": 4, "vh_tag_select": 12},
+                cc_defs=["LL_MEM_CASES=0,4,8,16,24,32,40,48,56,176"]))
     qs.append(Q("roundtrip", "C20_tags.cpp", "vh_roundtrip", unwind=8))
     return qs
 
@@ -104,7 +106,7 @@ def forests(n):
         if ok: out.append(pv)
     return out
 FORESTED = {"vh_attach", "vh_link_clusters", "vh_delete_gc", "vh_put_copy", "vh_temp_copy", "vh_finalise", "vh_scale", "vh_depth"}
-WINDOWED = {"vh_next_end", "vh_delete_gc", "vh_insert", "vh_put_copy", "vh_temp_copy", "vh_next", "vh_assoc_op", "vh_attach", "vh_attr_set"}
+WINDOWED = {"vh_delete_insert", "vh_next_end", "vh_delete_gc", "vh_insert", "vh_put_copy", "vh_temp_copy", "vh_next", "vh_assoc_op", "vh_attach", "vh_attr_set"}
 def slot_queries(pid, entries, quickmax, thoroughmax, extra=None, nmin=1, extra_unwind=None, src="slots.cpp", with_forest=False):
     qs = []
     for e in entries:
@@ -138,7 +140,7 @@ def slot_queries(pid, entries, quickmax, thoroughmax, extra=None, nmin=1, extra_
     return qs
 @prop("C03")
 def c03():
-    return slot_queries("C03", ["vh_reverse", "vh_delete_gc", "vh_insert", "vh_put_copy", "vh_temp_copy", "vh_next", "vh_append", "vh_associate"], 3, 5) + \
+    return slot_queries("C03", ["vh_delete_insert"], 3, 4, extra={"NSPARE": 2}) + slot_queries("C03", ["vh_reverse", "vh_delete_gc", "vh_insert", "vh_put_copy", "vh_temp_copy", "vh_next", "vh_append", "vh_associate"], 3, 5) + \
            [Q("setglyph", "slots.cpp", "vh_setglyph", {"NS": 1}, unwind=8)]
 
 # ------------------------------------------------------------------------------------------- C12
@@ -401,3 +403,51 @@ def c08():
     return frozen_queries("C08") + [Q("lazy_glyph", "lazy.cpp", "vh_lazy_glyph", {"NG": 3}, unwind=8, stubs=["_ZNK9graphite210GlyphCache6Loader10read_glyphEtRNS_9GlyphFaceEPi"])]
 @prop("C09")
 def c09(): return frozen_queries("C09")
+
+# ------------------------------------------------------------------------------------------- C19
+META["C19"] = {
+    "bounds": "gr_slot_linebreak_before at every interior slot of streams of 2..3 slots (thorough 4), every attachment forest is not needed (links only): arbitrary slot contents; Segment::addLineEnd + delLineEnd before every slot and after the last, streams of 1..3 slots",
+    "outside": "Segment::justify itself (width distribution loop with float division, positionSlots with a font, reversal): not harnessed - the structural clauses claimed here are the two primitives by which justify and line breaking touch the links; finiteness of the returned width; fonts with justification passes",
+    "assumptions": ["pre-state satisfies INV_stream"],
+}
+@prop("C19")
+def c19():
+    qs = []
+    for n in (2, 3, 4):
+        tiers = ("quick", "thorough") if n <= 3 else ("thorough",)
+        for b in range(1, n):
+            qs.append(Q(f"linebreak_n{n}_at{b}", "justify.cpp", "vh_linebreak", {"NS": n, "BRK": b}, unwind=n + 5, tiers=tiers))
+    for n in (2, 3, 4):
+        for b in range(1, n):
+            qs.append(Q(f"reverse_line_n{n}_at{b}", "justify.cpp", "vh_reverse_line", {"NS": n, "BRK": b}, unwind=n + 5, unwindset={"reverseSlots": n + 2},
+                        tiers=("quick", "thorough") if n <= 3 else ("thorough",)))
+    for n in (1, 2, 3):
+        for at in range(0, n + 1):
+            qs.append(Q(f"lineend_n{n}_at{at}", "justify.cpp", "vh_lineend", {"NS": n, "AT": at}, unwind=n + 5, unwindset={"freeSlot": n + 2}))
+    for n in (1, 2):
+        for fl in (0, 1):
+            qs.append(Q(f"justify_n{n}_flags{fl}", "justify.cpp", "vh_justify", {"NS": n, "SFLAGS": fl, "NSPARE": 2}, unwind=n + 5,
+                        unwindset={"justify": n + 3, "newJustify": 4, "LoadSlot": 3, "linkClusters": n + 2, "positionSlots": n + 2, "insert": 4, "freeSlot": n + 2},
+                        tiers=("thorough",), timeout=1700, cc_defs=["LL_MEM_CASES=0,8,16,20,24,32,36,40,48,64,72,80,96,160"]))
+            qs[-1].unwindset.update({"lid:ll_calloc_split": 16, "lid:ll_malloc_split": 16, "lid:ll_realloc_split": 16, "lid:ll_memmove_sym": 16})
+    return qs
+
+# ------------------------------------------------------------------------------------------- C10
+META["C10"] = {
+    "bounds": "DirectCmap vs CachedCmap built from the same table bytes (served twice by the table provider): one (3,1) format 4 subtable with 2..3 segments incl. the 0xFFFF terminator, delta-mapped, idDelta symbolic; quick: code-point ranges enumerated by the query list (ten shapes: U+0000 first, block boundary 0xFF/0x100, adjacent segments, 0xFFFD..0xFFFE); thorough: ranges symbolic, at most 4 code points per segment (cadical, ~1100 s); every 32-bit code point looked up through both paths; table ownership of both paths",
+    "outside": "glyph preloading vs lazy loading (needs the GlyphCache loader over symbolic glyf/loca/Glat/Gloc tables: not harnessed), file face vs callbacks, dumbRendering bit, segment-level equality; format 12 / several subtables; idRangeOffset segments; terminator segments that map U+FFFF to a non-zero glyph (the cache never holds U+FFFF: DESIGN 9.3)",
+    "assumptions": ["well-formed subtable: sorted disjoint segments, terminator maps to glyph 0"],
+}
+@prop("C10")
+def c10():
+    qs = []
+    US = {"vh_cmap_paths": 60, "vh_get_table": 60, "vh_bytes": 60, "cache_subtable.*": 12, "CachedCmap": 260, "_CachedCmap": 260, "FindCmapSubtable": 3,
+          "CmapSubtable4Lookup": 4, "CmapSubtable4NextCodepoint": 5, "lid:CachedCmapD": 260}
+    cases = [(2, "0,1"), (2, "0,2"), (2, "5,6"), (2, "65,67"), (2, "254,257"), (2, "65533,65534"),
+             (3, "65,66,67,68"), (3, "0,0,1,2"), (3, "32,33,40,41"), (3, "255,255,256,256")]
+    for n, rg in cases:
+        qs.append(Q(f"cmap_paths_seg{n}_r{rg.replace(',', '_')}", "cmap_paths.cpp", "vh_cmap_paths", {"NSEG": n, "RANGES": rg}, unwind=8, unwindset=US,
+                    cc_defs=["LL_MEM_CASES=0,44,52,176,512,2048,34816"]))
+    qs.append(Q("cmap_paths_seg2_symbolic", "cmap_paths.cpp", "vh_cmap_paths", {"NSEG": 2}, unwind=8, unwindset=US, tiers=("thorough",), timeout=1700,
+                cbmc_flags=["--sat-solver", "cadical"], cc_defs=["LL_MEM_CASES=0,44,52,176,512,2048,34816"]))
+    return qs
